@@ -57,6 +57,22 @@ add("C02", "e_zone", "exploration",
     "Trusts the harness's flat reference model. Deviation D1 (records beneath / wildcard at a delegation point), wildcard NS and multiple CNAMEs per node are not generated. Exhaustive only within the stated small scope.",
     "DESIGN.md §6 C02")
 
+add("C05", "e_cache", "exploration",
+    "runtime monitoring of operation histories against a sequential model under a virtual clock",
+    "Drives Cache and SharedCache through generated histories (insert, re-insert with another TTL, typed/ANY/unchecked lookups, prune, clock advances from 1 ns to 1 h) with the cache's clock "
+    "replaced by a controllable one (hook H3), and judges every lookup with a sequential model: nothing served once its lifetime has elapsed, reported TTL never above the time left, "
+    "TTL-0 records never stored through SharedCache, no duplicates, every unexpired unevicted record returned with its data. What is still held after evictions is read from the read-only snapshot hook (H4).",
+    "Trusts the model and the clock hook (only Instant::now() inside cache.rs is replaced). Tolerance T3: a record in its last partial second may be missing. Sequential histories only; the threaded use is exercised under C15.",
+    "DESIGN.md §6 C05")
+add("C15", "e_cache", "exploration",
+    "runtime monitoring: history checker + structural invariant hook + multi-thread stress with conservation accounting",
+    "Same histories as C05 plus targeted re-insert scenarios; at every prune the four returned numbers, whole-name eviction, eviction only while over size, minimality and LRU order "
+    "(with the stated ambiguity) are checked against the model; after every prune and every 7th operation the cache's own invariants are re-checked through the read-only hook (H4) and its contents "
+    "must equal the model's. SharedCache is then hammered from 2/4/8 threads with globally unique values: structural self-check at barriers, conservation (inserted = held + expired + evicted) "
+    "and every value returned by a get was inserted before that get returned.",
+    "Trusts the model and hooks H3/H4. Schedule coverage for the threaded leg is whatever the stress produced (counts in the evidence); TSan/Miri shards are separate (DESIGN §9).",
+    "DESIGN.md §6 C15")
+
 UNDER_CONSTRUCTION = "check not built yet in this revision (see DESIGN.md §6); the technique applies, this is not a claim of inapplicability"
 
 ALL = ["C%02d" % i for i in range(1, 20)]
